@@ -10,22 +10,22 @@ from lxml import etree
 
 from common import rng_for
 from opbase import pmap
+import domgen
 import forms
 import xf
 from props import c15
 
 PID = "C01"
-GUARD = ("wf_dom /\\ dom_ns_ok /\\ dom_attrs_unique: names are XML Names with declared prefixes — true of every literal name "
-         "(theorem C01_source_constants) and of question/choice-column names accepted by is_xml_tag; NOT enforced by the "
-         "code for user-supplied bind::/instance::/body::/attribute:: names and for characters outside XML Char "
-         "(known findings F1-F3)")
+GUARD = ("none for theorem C01_accepted_document_wellformed beyond the checks the code itself performs while it builds the document "
+         "(document_accepted: names by is_xml_tag, characters by the Char production, prefixes declared; Model/DomCheck.v) and unique "
+         "attribute names (an attribute dict); C01_roundtrip / C01_namespaces keep their explicit hypotheses wf_dom /\\ dom_ns_ok /\\ dom_attrs_unique")
 MODELLED = ("stage E writers and the top of Survey.xml/xml_model/xml_instance (coq/Model/{Dom,Top}.v); the rest of the "
             "generator is covered through the universally quantified children lists of C01_skeleton and by the direct oracle")
 ASSUMPTIONS = c15.ASSUMPTIONS + ["XML Char production is not part of the Spec parser; the lxml oracle enforces it on real output"]
 
 
 NAME_ALPHA = ["a", "Z", "_", "-", ".", "0", "9", ":", "é", "À", "Ö", "×", "÷", "µ", "ª", "º", "·", "]", "[", " ", "ø", "˿", "Ͱ", ";", "‿", "⁀", "ⁱ",
-              "日", "\U00010000", "\U000EFFFF", "\U000F0000", "\u037e", "\u0300", "\u200c", "\u2070", "\u218f", "\u2190", "\ud7ff", "\uf900", "\ufdcf", "\ufdd0", "\ufffd", "\ufffe"]
+              "日", "\U00010000", "\U000EFFFF", "\U000F0000", "\u037e", "\u0300", "\u200c", "\u2070", "\u218f", "\u2190", "\ud7ff", "\uf900", "\ufdcf", "\ufdd0", "\ufffd", "\ufffe", "\n", "\n", "\r", "\t"]
 
 
 class IsXmlTagOp(c15.Op):
@@ -50,8 +50,96 @@ class IsXmlTagOp(c15.Op):
         return cases
 
 
+BOUNDARY_CHARS = [0x0, 0x1, 0x8, 0x9, 0xA, 0xB, 0xC, 0xD, 0xE, 0x1F, 0x20, 0x7F, 0x85, 0xD7FF, 0xD800, 0xDFFF, 0xE000, 0xFFFD, 0xFFFE, 0xFFFF, 0x10000, 0x10FFFF]
+HOSTILE_NAMES = ["a b", "", "1a", "a:b:c", ":a", "a:", "a\x01", "-a", "a/b", "xmlns:", "a\n", "é:·", "f:b", "g:x", "xml:lang", "xmlns:f", "xmlns:g", "h:z", "jr:x", "q", "_u", "n.1", "x-y",
+                 "xmlns", "xmlns:xml", "xmlns:xmlns", "xmlns:f", "xmlns:g", "xmlns:xml"]
+NS_VALUES = ["http://example.org/f", "urn:x", "http://www.w3.org/XML/1998/namespace", "http://www.w3.org/2000/xmlns/", "", "u", "http://www.w3.org/1999/xhtml"]
+
+
+class DomChecksOp(c15.Op):
+    """The checks made while the document is built (DetachableElement, node()) and before it is returned (validate_namespace_prefixes),
+    run on trees with hostile names, characters and prefixes, against Model/DomCheck.v; an accepted tree is also handed to lxml."""
+    name = "E.dom_checks"
+    imports = ["PX.Model.Dom", "PX.Model.DomCheck"]
+    fn = "fun n => if built n then (if py_ns_check PY_SCOPE0 n then [111;107]%N else [78]%N) else [66]%N"
+    in_ty = "node"
+    n_quick, n_thorough = 400, 5000
+
+    @staticmethod
+    def _text(rng):
+        s = domgen.rand_text(rng)
+        if rng.random() < 0.25:
+            k = rng.randint(0, len(s))
+            s = s[:k] + chr(rng.choice(BOUNDARY_CHARS)) + s[k:]
+        return s
+
+    def _tree(self, rng, depth, declared):
+        """('DE', tag, attrs, kids) with at most one PT child, first; names drawn from good and hostile pools"""
+        def name(pool):
+            return rng.choice(HOSTILE_NAMES) if rng.random() < 0.2 else rng.choice(pool)
+        attrs, seen = [], set()
+        for _ in range(rng.choice([0, 1, 1, 2, 3])):
+            a = name(domgen.ATTRS)
+            if a in seen or a in ("tag", "toParseString"):
+                continue
+            seen.add(a)
+            # declarations get namespace names (libxml2 also insists that they are URI references, which is outside the property)
+            attrs.append((a, rng.choice(NS_VALUES) if a == "xmlns" or a.startswith("xmlns:") else self._text(rng)))
+        if depth == 0 and rng.random() < 0.8:
+            attrs = [a for a in domgen.ROOT_NS if a[0] not in seen] + attrs
+        kids = []
+        if rng.random() < 0.4:
+            kids.append(("PT", self._text(rng)))
+        if depth < 3:
+            for _ in range(rng.choice([0, 0, 1, 2])):
+                r = rng.random()
+                if r < 0.2:
+                    kids.append(("ME", rng.choice(["output", "h:b", "jr:x", "f:b"]), [(rng.choice(["value", "jr:p", "g:q"]), domgen.rand_text(rng))] if rng.random() < 0.7 else []))
+                elif r < 0.3 and not any(k[0] == "PT" for k in kids):
+                    kids.append(("MT", domgen.rand_text(rng)))
+                else:
+                    kids.append(self._tree(rng, depth + 1, declared))
+        return ("DE", name(domgen.TAGS), attrs, kids)
+
+    def generate(self, rng, n):
+        from pyxform.utils import node, validate_namespace_prefixes
+        from pyxform.errors import PyXFormError
+        from lxml import etree
+
+        def build(t):
+            if t[0] != "DE":
+                return domgen.to_dom(t)
+            args = [c[1] if c[0] == "PT" else build(c) for c in t[3]]
+            return node(t[1], *args, **dict(t[2]))
+        cases = []
+        for i in range(n):
+            t = self._tree(rng, 0, set())
+            try:
+                dom = build(t)
+            except PyXFormError:
+                exp, dom = "B", None
+            except Exception as ex:
+                exp, dom = "crash:" + type(ex).__name__, None
+            if dom is not None:
+                try:
+                    validate_namespace_prefixes(element=dom)
+                    exp = "ok"
+                except PyXFormError:
+                    exp = "N"
+                # a real namespace-aware parser agrees with the verdict (the attribute dict guarantees unique attributes)
+                try:
+                    etree.fromstring(('<?xml version="1.0"?>' + dom.toxml()).encode("utf-8"))
+                    lx = "ok"
+                except etree.XMLSyntaxError as ex:
+                    lx = "N" if ("prefix" in str(ex).lower() or "namespace" in str(ex).lower()) else "other:" + str(ex)[:60]
+                if lx != exp:
+                    exp = f"code says {exp}, lxml says {lx}"
+            cases.append({"coq": domgen.to_coq(t), "expected": exp, "desc": {"tree": t}, "class": exp, "nontrivial": True})
+        return cases
+
+
 def ops(tier):
-    return c15.ops(tier)[:3] + [IsXmlTagOp()]
+    return c15.ops(tier)[:3] + [IsXmlTagOp(), DomChecksOp()]
 
 
 XML_NAME = re.compile(r"^[A-Za-z_:À-ÖØ-öø-˿Ͱ-ͽͿ-῿‌‍⁰-↏Ⰰ-⿯、-퟿豈-﷏ﷰ-�\U00010000-\U000EFFFF]"
@@ -102,36 +190,7 @@ def expected_form_id(form):
 
 
 def classify(form, problems):
-    """Narrow predicates for the listed findings (DESIGN.md section 7: F1, F2, F3)."""
-    info = (form.get("__info") or [{}])[0]
-    text = " ".join(problems)
-    cells = [v for rows in form.values() for r in rows if isinstance(r, dict) for v in r.values() if isinstance(v, str)]
-    cols = [k for rows in form.values() for r in rows if isinstance(r, dict) for k in r]
-    if any(XML_CHAR_BAD.search(c) for c in cells) and ("not well-formed" in text) and ("PCDATA invalid Char" in text or "invalid Char" in text or "Char 0x" in text or "not allowed" in text
-                                                                                       or "invalid character in attribute value" in text):
-        return "F3-control-char"
-    custom = [c.split("::", 1)[1].strip() for c in cols if "::" in c and c.split("::")[0].strip().lower() in ("bind", "instance", "body", "control", "attribute")]
-    # extra choices columns become element names of the secondary instance items, equally unvalidated
-    known_choice = {"list_name", "list name", "name", "value", "label", "caption", "image", "audio", "video", "big-image", "media", "sms_option"}
-    choice_cols = [c for r in form.get("choices", []) for c in r
-                   if c.split("::")[0].split(":")[0].strip().lower() not in known_choice or ("::" in "".join(cols) and ":" in c.replace("::", ""))]
-    # ... except headers with a space: validate_and_clean_choices drops those columns (with a warning), so they never excuse a failure
-    custom = custom + [c for c in choice_cols if " " not in c]
-    badnames = [c for c in custom if not XML_NAME.match(c)]
-    if badnames and "not well-formed" in text:
-        return "F1-invalid-attribute-name"
-    declared = set()
-    ns = (form.get("settings") or [{}])[0].get("namespaces", "")
-    for part in ns.split():
-        if "=" in part:
-            declared.add(part.split("=")[0])
-    m = re.search(r"Namespace prefix (\S+) (?:for \S+ )?on \S+ is not defined", text)
-    if m:
-        pref = m.group(1)
-        user_prefixes = {c.split(":")[0] for c in custom if ":" in c} | {
-            r["name"].split(":")[0] for r in form.get("survey", []) if ":" in r.get("name", "")}
-        if pref in user_prefixes and pref not in declared and pref not in ("jr", "odk", "orx", "h", "ev", "xsd", "entities"):
-            return "F2-unbound-user-prefix"
+    """No finding is listed for this property any more (F1-F3 were repaired in /repo): nothing is excused."""
     return None
 
 
@@ -202,11 +261,7 @@ def oracle(seed, tier, searching=False):
     }
 
 
-FINDING_INPUTS = {
-    "F1-invalid-attribute-name": {"survey": [{"type": "text", "name": "q", "label": "Q", "bind::a b": "v"}]},
-    "F2-unbound-user-prefix": {"survey": [{"type": "text", "name": "q", "label": "Q", "bind::foo:bar": "v"}]},
-    "F3-control-char": {"survey": [{"type": "text", "name": "q", "label": "Q\x01"}]},
-}
+FINDING_INPUTS = {}
 
 
 def replay_finding(slug):
